@@ -759,7 +759,21 @@ func (f *fn) returnStmt(x *ast.ReturnStmt) (string, error) {
 	sig := f.sig
 	if len(x.Results) == 0 {
 		if sig.Results().Len() != 0 {
-			return "", f.errf(x, "bare return with named results is not understood")
+			// bare return: the current values of the named results
+			var vals []string
+			errT := "None"
+			for i := 0; i < sig.Results().Len(); i++ {
+				b := f.env[sig.Results().At(i)]
+				if b == nil {
+					return "", f.errf(x, "bare return with unnamed results")
+				}
+				if b.t.k == kError {
+					errT = b.name
+				} else {
+					vals = append(vals, b.name)
+				}
+			}
+			return f.retTerm(x, vals, errT)
 		}
 		return f.retTerm(x, nil, "None")
 	}
